@@ -79,15 +79,25 @@ func c12Lane(c *Ctx, fn *ssa.Function) {
 		t := b.Of(e.Results[0], e.Instr)
 		blk := e.Instr.Block()
 		_ = blk
+		// the lane test reports "none" by the batch size, or returns (lane, found)
+		found, two := true, len(e.Results) == 2
+		if two {
+			ft := b.Of(e.Results[1], e.Instr).String()
+			if ft != "true" && ft != "false" {
+				r.Viol("C12.stage-structure.exits", c.ipos(e.Instr), "the lane test's second result is not a constant verdict: %s", ft)
+				continue
+			}
+			found = ft == "true"
+		}
 		switch {
-		case t.IsInt(64) || t.IsInt(32):
+		case two && !found, !two && (t.IsInt(64) || t.IsInt(32)):
 			n64++
 			ok := exitMustPass(fn, e, allNon) || (exitMustPass(fn, e, slow) && exitMustPass(fn, e, loop3out))
 			r.Check(ok, "C12.stage-structure.none-exit", c.ipos(e.Instr), "`none` is returned only when every lane misses the s−1 zeros, or after stage 3 examined every candidate lane")
-		case matches("call<math/bits.TrailingZeros>(un<^>("+W+"))", t):
+		case found && matches("call<math/bits.TrailingZeros>(un<^>("+W+"))", t):
 			nFast++
 			r.Check(exitMustPass(fn, e, someZero) && exitMustPass(fn, e, fast), "C12.stage-structure.fast-accept", c.ipos(e.Instr), "fast accept = first lane with s trailing zeros, only when such a lane exists")
-		case matches(J, t):
+		case found && matches(J, t):
 			nSlow++
 			r.Check(exitMustPass(fn, e, slow) && exitMustPass(fn, e, loop3) && exitMustPass(fn, e, bitZero) && exitMustPass(fn, e, cmpLE), "C12.stage-structure.slow-accept", c.ipos(e.Instr), "stage-3 accept returns the examined lane i, a candidate whose integer is <= target")
 		default:
@@ -472,6 +482,16 @@ func c12Worker(c *Ctx) {
 	// the worker's parameters by role (method or plain function): digest []byte, start nonce uint64, sufficient zeros int, target *big.Int
 	PD, PS, PZ, PTG := searchParam(fn, "[]byte"), searchParam(fn, "uint64"), searchParam(fn, "int"), searchParam(fn, "*math/big.Int")
 	hit := plainEdges(edgesMatching(b, "bin<<>(call<*>(_, _, "+PZ+", "+PTG+"), "+WS+")"))
+	laneVal := "call<*>(_, _, " + PZ + ", " + PTG + ")"
+	if len(hit) == 0 {
+		// (lane, found) form: the verdict is the second result (constant per exit of the lane test, C12.stage-structure.*)
+		for _, ce := range edgesMatching(b, "raw:ext#1(call<*>(_, _, "+PZ+", "+PTG+"))") {
+			if ce.Taken {
+				hit = append(hit, ce.Edge)
+				laneVal = "ext#0(call<*>(_, _, " + PZ + ", " + PTG + "))"
+			}
+		}
+	}
 	for _, e := range ana.Exits(fn) {
 		if e.Panic {
 			es := plainEdges(edgesMatching(b, "bin<>>("+PZ+", 243)"))
@@ -480,7 +500,7 @@ func c12Worker(c *Ctx) {
 		}
 		if b.Of(e.Results[1], e.Instr).Is("nil") {
 			vt := b.Of(e.Results[0], e.Instr)
-			_, ok := ana.Match("bin<+>(ind<+"+WS+">("+PS+"), conv<uint64>(call<*>(_, _, "+PZ+", "+PTG+")))", vt)
+			_, ok := ana.Match("bin<+>(ind<+"+WS+">("+PS+"), conv<uint64>("+laneVal+"))", vt)
 			r.Check(ok && exitMustPass(fn, e, hit), "C12.return.nonce", c.ipos(e.Instr), "returned nonce = batch base + lane index, only when the lane test found a lane: %s", short(vt.String(), 140))
 		}
 	}
